@@ -245,6 +245,53 @@ async fn run_death(log: &'static Log, rounds: u64) {
     ev!(log, "end", panics: 0);
 }
 
+/// (ii'') opens racing with FIN frames of other streams on a multi-threaded runtime: every open must return
+/// (lock order between the open path and the FIN / close path)
+async fn run_open_race(log: &'static Log, seed: u64, rounds: u64) {
+    use std::sync::atomic::{AtomicU64, Ordering as O};
+    for i in 0..rounds {
+        log.reset(json!({"kind": "open-race", "i": i}));
+        let rg = crate::rig::client_rig(PaddingFactory::default(), None);
+        let sess = rg.sess.clone();
+        let _ = sess.clone().start_client().await;
+        let done = Arc::new(AtomicU64::new(0));
+        let maxsid = Arc::new(AtomicU64::new(0));
+        let stop = Arc::new(std::sync::atomic::AtomicBool::new(false));
+        let (tasks, per) = (4u64, 400u64);
+        let mut hs = Vec::new();
+        for _ in 0..tasks {
+            let (s2, d2, m2) = (sess.clone(), done.clone(), maxsid.clone());
+            hs.push(tokio::spawn(async move {
+                for k in 0..per {
+                    if let Ok((st, rx)) = s2.open_stream().await { std::mem::forget(rx); m2.fetch_max(st.id() as u64, O::SeqCst); }
+                    if k == 0 { s2.disable_buffering(); }
+                    d2.fetch_add(1, O::SeqCst);
+                }
+            }));
+        }
+        // the peer finishes streams as fast as they appear
+        let (inp, m3, st3) = (rg.inp.clone(), maxsid.clone(), stop.clone());
+        let flood = tokio::spawn(async move {
+            let mut r = Rng::new(seed ^ i); let mut next = 1u64;
+            while !st3.load(O::SeqCst) {
+                let hi = m3.load(O::SeqCst);
+                while next <= hi { inp.push(&frame_bytes(3, next as u32, &[])); next += 1; }
+                inp.push(&frame_bytes(3, r.range(1, 50) as u32, &[]));
+                tokio::task::yield_now().await;
+            }
+        });
+        // drain the session's output so that writes never block
+        let (out, st4) = (rg.out.clone(), stop.clone());
+        let drain = tokio::spawn(async move { while !st4.load(O::SeqCst) { out.take_record(); out.take_wlog(); tokio::time::sleep(Duration::from_millis(2)).await; } });
+        let all = async { for h in hs { let _ = h.await; } };
+        let hung = tokio::time::timeout(Duration::from_secs(25), all).await.is_err();
+        stop.store(true, std::sync::atomic::Ordering::SeqCst);
+        let _ = flood.await; let _ = drain.await;
+        ev!(log, "openrace", opens: tasks * per, completed: done.load(O::SeqCst), hung: hung);
+        let _ = tokio::time::timeout(Duration::from_secs(3), sess.close()).await;
+    }
+}
+
 /// (iii) thorough only: the 30 s SYNACK timeout of Client::create_proxy_stream against the scripted TLS server
 async fn run_timeouts(log: &'static Log) {
     log.reset(json!({"kind": "timeouts"}));
@@ -289,6 +336,7 @@ pub fn run(args: &Args, log: &Log) -> Result<(), String> {
         rt.block_on(run_e2e(log, args.seed, if thorough { 60 } else { 8 }));
         let logp: &'static Log = crate::events::log();
         rt.block_on(run_death(logp, if thorough { 8 } else { 2 }));
+        rt.block_on(run_open_race(logp, args.seed, if thorough { 30 } else { 4 }));
         if thorough { rt.block_on(run_timeouts(logp)); }
         rt.shutdown_timeout(Duration::from_millis(200));
     }
